@@ -24,9 +24,9 @@ def _one(module, text, cfg, name, timeout):
     except subprocess.TimeoutExpired:
         out = "timeout"
     shutil.rmtree(d, ignore_errors=True)
-    m = re.search(r"Invariant (\w+) is violated|Action property (\w+) is violated|Temporal properties were violated", out)
+    m = re.search(r"Invariant (\w+) is violated|Action property (\w+) is violated|The invariant of (\w+) is equal to FALSE|Temporal properties were violated", out)
     if m:
-        return "killed:" + (m.group(1) or m.group(2) or "temporal")
+        return "killed:" + (m.group(1) or m.group(2) or m.group(3) or "temporal")
     if "Model checking completed. No error has been found" in out:
         return "survived"
     if "Assumption" in out and "is false" in out:
